@@ -46,14 +46,18 @@ def rule_qr_carry(model: Model):
     obs.append(Ob("QR-CARRY", k + "carry", OK if carried else VIOLATED, model.where(f, loop), f"{rname} @ core_next",
                   "the R factor multiplies the next core" if carried else
                   "the R factor of the QR decomposition is not carried into the next core: the norm of the last core alone is returned"))
-    nxt = any(isinstance(s, ast.Assign) and norm(s.value).replace(" ", "") == "self.cores[i+1]" for s in ast.walk(loop))
-    obs.append(Ob("QR-CARRY", k + "next-core", OK if nxt else VIOLATED, model.where(f, loop), "core_next = self.cores[i + 1]",
+    lv = loop.target.id if isinstance(loop.target, ast.Name) else "?"
+    nxt_names = [s.targets[0].id for s in ast.walk(loop) if isinstance(s, ast.Assign) and isinstance(s.targets[0], ast.Name)
+                 and norm(s.value).replace(" ", "") == f"self.cores[{lv}+1]"]
+    nxt = bool(nxt_names)
+    obs.append(Ob("QR-CARRY", k + "next-core", OK if nxt else VIOLATED, model.where(f, loop), "next = self.cores[i + 1]",
                   "the sweep advances to core i+1" if nxt else "the sweep does not take core i+1 as the next core"))
-    upd = any(isinstance(s, ast.Assign) and norm(s) == "core_now = core_next" for s in loop.body)
+    # the carried core: a name re-bound in the loop body from another name (cur = next), read by the returns after the loop
+    rebound = [s.targets[0].id for s in loop.body if isinstance(s, ast.Assign) and isinstance(s.targets[0], ast.Name) and isinstance(s.value, ast.Name)]
     rets = [r for r in ast.walk(f.node) if isinstance(r, ast.Return) and r.lineno > loop.lineno]
-    good = upd and rets and all("tn.linalg.norm(core_now)" in norm(r.value) for r in rets)
+    good = bool(rebound) and bool(rets) and all(any(f"tn.linalg.norm({c})" in norm(r.value) for c in rebound) for r in rets)
     sq = any(norm(r.value).replace(" ", "").endswith("**2") for r in rets) and any(not norm(r.value).replace(" ", "").endswith("**2") for r in rets)
-    obs.append(Ob("QR-CARRY", k + "return", OK if good and sq else VIOLATED, model.where(f, rets[0]) if rets else model.where(f), "return norm(core_now)",
+    obs.append(Ob("QR-CARRY", k + "return", OK if good and sq else VIOLATED, model.where(f, rets[0]) if rets else model.where(f), "return norm(carried core)",
                   "Frobenius norm of the last carried core (squared when requested)" if good and sq else
                   "the value returned after the QR sweep is not the Frobenius norm of the carried core (plain / squared)"))
     return obs
